@@ -365,7 +365,11 @@ def attribute_stream(ck):
         seen[bool(exp)] = seen.get(bool(exp), 0) + 1
         # the same defect may be reported once per use (an attribute on an alias's type is reported at every reference to the alias):
         # the codes must be the model's, each at least as often as the model reports it
-        if set(exp) != set(errs) or any(errs.count(c) < exp.count(c) for c in set(exp)):
+        # ... and a reference to an alias carries the alias's type attributes after its own: a directive written once on each is then seen twice
+        # (E026) -- only where the attribute is misplaced anyway, so the program is rejected either way
+        through_alias = bool(exp) and any("typealias" in l and "= [" in l for t in ts for l in t.split("\n"))
+        errs_cmp = [c for c in errs if not (through_alias and c == "E026" and "E026" not in exp)]
+        if set(exp) != set(errs_cmp) or any(errs_cmp.count(c) < exp.count(c) for c in set(exp)):
             fam2 = "ill-formed-attribute-accepted" if exp and not errs else ("legal-attribute-rejected" if errs and not exp else "attribute-codes-differ")
             if ci in m_wo:
                 # what is observed lies between the model's verdict without the attributes written on underlying types and base references and its verdict
